@@ -309,13 +309,39 @@ WithinFairShare(q, i) ==
   /\ QMem(q, i, FALSE) <= qi.q[q].fsM + 1
 \* resources are taken only from (levelled) queues above their deserved quota or above their fair
 \* share in some resource at the moment the statement starts taking from them
+\* victims that the same statement nominates again (consolidating reclaim moves them) keep being
+\* charged to their queue: nothing is taken from it
+MovedInStmt(i) == \E k \in Dec : Piped(k) /\ D[k].stmt = D[i].stmt /\ D[k].p = D[i].p
+TakingEvicts == {i \in ReclaimEvicts : ~MovedInStmt(i)}
 C07_NotWithinQuota ==
-  (Quiet /\ ~failed) => \A i \in ReclaimEvicts :
+  (Quiet /\ ~failed) => \A i \in TakingEvicts :
      LET vq == J(JobOf(D[i].p)).queue
          rq == J(D[i].pre).queue
          x  == StepDownQ(vq, rq)
          b  == FirstOfStmt(D[i].stmt) - 1
      IN (vq # rq /\ qi # <<>>) => ~(WithinDeserved(x, b) /\ WithinFairShare(x, b))
+\* the same at the moment each victim workload is taken: the code checks the remaining share of the
+\* levelled queue before subtracting each victim workload's resources, in an unspecified order of
+\* the victims. Some order passes every check iff its LAST victim does, so: for every statement
+\* and levelled victim queue x there is a victim workload j such that the allocation at the start
+\* of the statement minus what all the OTHER victims really took (not moved) from x's subtree is
+\* still above x's deserved quota or fair share in some resource.
+TakenFrom(s, x) == {D[y].p : y \in {z \in TakingEvicts : D[z].stmt = s /\ InSubtree(D[z].p, x)}}
+AboveAfterOthers(s, x, j) ==
+  LET b  == FirstOfStmt(s) - 1
+      others == {p \in TakenFrom(s, x) : JobOf(p) # j}
+      g  == QGpu(x, b, FALSE) - Sum(others, GpuMilli)
+      c  == QCpu(x, b, FALSE) - Sum(others, EffCpu)
+      m  == QMem(x, b, FALSE) - Sum(others, LAMBDA p : P(p).mem)
+  IN ~(/\ (Q(x).gq = -1 \/ g <= Q(x).gq) /\ (Q(x).cq = -1 \/ c <= Q(x).cq) /\ (Q(x).mq = -1 \/ m <= Q(x).mq)
+       /\ g <= qi.q[x].fsG + 1 /\ c <= qi.q[x].fsC + 1 /\ m <= qi.q[x].fsM + 1)
+C07_NotWithinQuotaPerVictim ==
+  (Quiet /\ ~failed /\ qi # <<>>) => \A i \in TakingEvicts :
+     LET vq == J(JobOf(D[i].p)).queue
+         rq == J(D[i].pre).queue
+         x  == StepDownQ(vq, rq)
+         s  == D[i].stmt
+     IN vq # rq => \E j \in {JobOf(p) : p \in TakenFrom(s, x)} : AboveAfterOthers(s, x, j)
 \* the reclaiming (leaf) queue stays within its fair share after receiving the resources
 \* (tolerance of one milli-unit / one MB for the float fair shares)
 C07_ReclaimerWithinFairShare ==
